@@ -138,15 +138,25 @@ def gen_scenario(rng, sid, pf):
         # no wx.Base, no exported method (unless it announces a constant name): only `any` points, by-name points and
         # sealed interfaces can be served by such a component; "zero" ones are zero-size (they all share one address)
         cn = fresh_name() if rng.random() < 0.25 else None
-        types.append({"ifaces": [i for i in range(nif) if sealed[i] and rng.random() < 0.6], "naming": cn is not None,
-                      "qual": False, "primary": False, "lazy": rng.random() < pf.p_lazy, "aps": False, "init": False,
-                      "runner": None, "closer": False, "proc": None, "methods": [], "fields": [], "cfields": [],
-                      "bare": rng.choice(["zero", "zero", "sized"]), "const_name": cn})
+        bt = {"ifaces": [i for i in range(nif) if sealed[i] and rng.random() < 0.6], "naming": cn is not None,
+              "qual": False, "primary": False, "lazy": rng.random() < pf.p_lazy, "aps": False, "init": False,
+              "runner": None, "closer": False, "proc": None, "methods": [], "fields": [], "cfields": [],
+              "bare": rng.choice(["zero", "zero", "sized"]), "const_name": cn}
+        if rng.random() < 0.35:
+            # a component whose type is not a struct at all (`type T int`, a named slice, a named channel) but has the
+            # methods of a runner and/or a closer
+            bt["bare"] = "sized"
+            bt["nonstruct"] = rng.choice(["int", "[]string", "chan struct{}", "map[string]int"])
+            bt["runner"] = rng.choice("POU") if rng.random() < 0.7 else None
+            bt["closer"] = rng.random() < 0.5
+        types.append(bt)
     for ti, t in enumerate(types):
         ninst = 1
         if t.get("bare"):
             comps.append({"type": ti, "name": t["const_name"] or "", "qual": "", "apsFail": False, "initFail": False,
-                          "runFail": False, "closeErr": False, "ord": 0, "rets": {}, "proc": None})
+                          "runFail": False, "closeErr": False,
+                          "ord": rng.choice([-3, 0, 1, 2, 5, 9, -(2 ** 63), 2 ** 63 - 1]) if t.get("nonstruct") else 0,
+                          "rets": {}, "proc": None})
             continue
         if t["naming"] and not t["proc"] and rng.random() < pf.p_extra_instance:
             ninst = 2
@@ -542,6 +552,26 @@ def gen_go(scn):
         if t.get("foreign"):
             f = t["foreign"]
             out.append('func init() {\n\twx.Ctors["%s"] = func(b wx.Base) any { return &%s.%s{} }\n}' % (tn, f[0], f[2]))
+            continue
+        if t.get("nonstruct"):
+            ord_ = [c["ord"] for c in scn["comps"] if c["type"] == ti][0]
+            out.append("type %s %s" % (tn, t["nonstruct"]))
+            for i in t["ifaces"]:
+                out.append("func (t *%s) %s() {}" % (tn, mname(i)))
+            if t.get("const_name"):
+                out.append('func (t *%s) Naming() string { return "%s" }' % (tn, t["const_name"]))
+            if t["lazy"]:
+                out.append("func (t *%s) LazyInit() {}" % tn)
+            if t["runner"]:
+                out.append('func (t *%s) Run() error { return wx.GlobalEvent("run", t) }' % tn)
+                if t["runner"] in ("P", "O"):
+                    out.append("func (t *%s) Order() int { return %d }" % (tn, ord_))
+                if t["runner"] == "P":
+                    out.append("func (t *%s) Priority() {}" % tn)
+            if t["closer"]:
+                out.append('func (t *%s) Close() error { return wx.GlobalEvent("close", t) }' % tn)
+            mk = {"int": "v := %s(0)", "[]string": "v := %s{}", "chan struct{}": "v := make(%s)", "map[string]int": "v := %s{}"}[t["nonstruct"]] % tn
+            out.append('func init() {\n\twx.Ctors["%s"] = func(b wx.Base) any { %s; return &v }\n}' % (tn, mk))
             continue
         if t.get("bare"):
             out.append("type %s struct {%s}" % (tn, " X int " if t["bare"] == "sized" else ""))
